@@ -246,6 +246,21 @@ def r5(ctx):
     it = [x for x in calls_in(f) if self_call(x) == "install_task"]
     ok = ok and len(it) == 1 and {a.arg: norm(a.value) for a in it[0].keywords} == {"delta": "task_delay"} and w and w[0].lineno < it[0].lineno
     ctx.check("MinOnOffTask:holds-at-priority-6", ok, where(m, f), "the new state is commanded at priority 6 and the release is scheduled after the minimum time")
+    # every hold gets its own release time: on each path that commands priority 6 the task is (re)installed after it -
+    # also when a release is still pending from the previous state (install_task moves a scheduled task)
+    from ..paths import enumerate_paths as _ep
+    okh = True
+    nh = 0
+    for p_ in _ep(f):
+        if p_.term == "raise":
+            continue
+        cs_ = p_.calls()
+        wi = [i for i, x in enumerate(cs_) if norm(x.func) == "self.binary_obj.WriteProperty"]
+        ii = [i for i, x in enumerate(cs_) if self_call(x) == "install_task"]
+        if wi:
+            nh += 1
+            okh = okh and bool(ii) and ii[-1] > wi[-1]
+    ctx.check("MinOnOffTask:every-hold-timed", okh and nh >= 1, where(m, f), "a state commanded at priority 6 must always get its release scheduled (a pending release of the previous state does not do: it fires at the old time)")
     rets = [r for r in walk_shallow(f) if isinstance(r, ast.Return)]
     ok = any(("old_value == new_value" in t or "%s == %s" % (f.args.args[1].arg, nv) == t) and p for r in rets for t, p in atom_texts(facts_at(r))) and \
         any(t == "task_delay" and not p for r in rets for t, p in atom_texts(facts_at(r)))
@@ -341,3 +356,9 @@ def r8(ctx):
                           "the constructor computes its default as %s().value, but %s is not an atomic type and has no `value`: the class cannot be instantiated (AttributeError)" % (norm(b.args[0]), norm(b.args[0])))
     if n < 20:
         raise ShapeError("only %d commandable classes found" % n)
+
+
+@rule("C17.R9", "a commandable object whose present value is currently false (0, 0.0, inactive, '') can still be commanded through the WriteProperty service", floor=1, engines="E5 (shared with C15.R8)")
+def r9(ctx):
+    from .c15 import write_existence_test
+    write_existence_test(ctx)
